@@ -8,12 +8,16 @@
 //!   func <id> <addr_hex|-> <page_off> <ret>   synthetic target `mov eax,<ret>; ret` at that page offset
 //!                                             (exact address if given and free)
 //!   fakefn <id> near|far <ret>                synthetic fake, within / beyond 2 GiB of target 0
+//!   fakefn_rel <id> <target> <disp> <ret>     synthetic fake at EXACTLY trampoline(target) + disp, where the
+//!                                             trampoline address is learnt from a trial installation on <target>
 //!   new | drop                                create / drop the InjectorPP
 //!   raw <target> <fake>                       when_called_unchecked(..).will_execute_raw_unchecked(..)
 //!   bool <target> <0|1>                       when_called(sig "fn() -> bool").will_return_boolean(v)
 //!   call <id> <expected>                      call it, compare rax
 //!   bytes <id>                                16 entry bytes equal to the snapshot taken at creation
 //!   maps                                      number of rwx anonymous mappings equals the count at start
+//!   thread_panic <target> <fake>              in a NEW thread: create an injector, install raw, call, panic!()
+//!                                             (real unwinding with fakes installed); joined before the next op
 use injectorpp::interface::injector::*;
 use std::collections::HashMap;
 
@@ -67,6 +71,7 @@ unsafe fn make_func(addr: Option<usize>, off: usize, ret: u32, near: Option<usiz
     Some(f)
 }
 
+#[allow(static_mut_refs)]
 static mut ARENAS: Vec<(usize, usize)> = Vec::new();
 
 /// rwx anonymous mappings that are not (part of) one of our own code arenas, whose pages the
@@ -146,6 +151,39 @@ fn run(scn: &str) -> i32 {
                         }
                     }
                 }
+                "fakefn_rel" => {
+                    let tgt = funcs[w[2]];
+                    let disp: i64 = w[3].parse().unwrap();
+                    let ret: u32 = w[4].parse().unwrap();
+                    // trial installation: where does the allocator put the trampoline for this target?
+                    let j = {
+                        let mut probe = InjectorPP::new();
+                        probe
+                            .when_called(FuncPtr::new(tgt as *const (), "fn() -> bool"))
+                            .will_return_boolean(true);
+                        let mut e = [0u8; 5];
+                        std::ptr::copy_nonoverlapping(tgt as *const u8, e.as_mut_ptr(), 5);
+                        if e[0] != 0xE9 {
+                            println!("step {ln}: SETUP-FAILED entry is not a rel32 jump");
+                            return 9;
+                        }
+                        let rel = i32::from_le_bytes([e[1], e[2], e[3], e[4]]) as i64;
+                        (tgt as i64 + 5 + rel) as usize
+                    };
+                    let want = (j as i64).wrapping_add(disp) as usize;
+                    let page = want & !(PAGE - 1);
+                    let base = map_at(page, 2 * PAGE, true);
+                    if base.is_null() || base as usize != page {
+                        println!("step {ln}: SETUP-FAILED cannot map the fake at {want:#x} (trampoline {j:#x} + {disp})");
+                        return 9;
+                    }
+                    ARENAS.push((page, 2 * PAGE));
+                    let code: [u8; 6] = [0xB8, ret as u8, (ret >> 8) as u8, (ret >> 16) as u8, (ret >> 24) as u8, 0xC3];
+                    std::ptr::copy_nonoverlapping(code.as_ptr(), want as *mut u8, 6);
+                    libc::mprotect(page as *mut _, 2 * PAGE, libc::PROT_READ | libc::PROT_EXEC);
+                    println!("step {ln}: fake {} at {want:#x} = trampoline {j:#x} {disp:+}", w[1]);
+                    funcs.insert(w[1].to_string(), want);
+                }
                 "new" => inj = Some(InjectorPP::new()),
                 "drop" => {
                     inj = None;
@@ -173,6 +211,23 @@ fn run(scn: &str) -> i32 {
                     println!("step {ln}: call {} -> {got} (expected {exp})", w[1]);
                     if got != exp {
                         println!("MISMATCH at step {ln}: call {} returned {got}, expected {exp}", w[1]);
+                        return 3;
+                    }
+                }
+                "thread_panic" => {
+                    let t = funcs[w[1]];
+                    let f = funcs[w[2]];
+                    let h = std::thread::spawn(move || {
+                        let mut inj = InjectorPP::new();
+                        inj.when_called_unchecked(FuncPtr::new(t as *const (), ""))
+                            .will_execute_raw_unchecked(FuncPtr::new(f as *const (), ""));
+                        let _ = call(t);
+                        panic!("injected panic while a fake is installed");
+                    });
+                    let r = h.join();
+                    println!("step {ln}: thread panicked while holding an injector: join is_err={}", r.is_err());
+                    if r.is_ok() {
+                        println!("MISMATCH at step {ln}: the thread did not panic");
                         return 3;
                     }
                 }
